@@ -131,7 +131,28 @@ def mk_series(s, shift, use_range):
     # integer-valued data without gaps are sometimes handed over with an integer dtype
     if len(vals) and not np.isnan(arr).any() and np.all(arr == np.round(arr)) and (len(vals) + int(abs(arr).sum())) % 3 == 0:
         arr = arr.astype("int64")
+    # ... and sometimes as a strided view of a wider buffer (not contiguous in memory)
+    if len(vals) > 1 and (len(vals) + 2 * shift + int(labels[0])) % 4 == 1:
+        buf = np.zeros(2 * len(arr), dtype=arr.dtype)
+        buf[::2] = arr
+        buf[1::2] = -777
+        arr = buf[::2]
     return pd.Series(arr, index=idx)
+
+
+def _snap(a):
+    """value snapshot of a caller's argument (series / horizon container)"""
+    if a is None or isinstance(a, (int, np.integer)):
+        return a
+    if isinstance(a, pd.Series):
+        return ("S", a.index.tolist(), [None if v != v else v for v in a.tolist()], str(a.dtype))
+    if hasattr(a, "to_pandas"):
+        return ("FH", a.to_pandas().tolist(), a.is_relative)
+    if isinstance(a, (pd.Index, np.ndarray)):
+        return ("A", a.tolist())
+    if isinstance(a, list):
+        return ("L", list(a))
+    return repr(a)
 
 
 def mk_fh(fh, shift):
@@ -204,24 +225,32 @@ def run_real(c):
     opaque = c["core"].startswith("opaque")
     f = make_forecaster(c)
     toks = []
+    held = []
     for op in c["ops"]:
+        k = op[0]
+        ya = mk_series(op[1], shift, rng_idx) if k in ("fit", "upd", "up", "ups") else None
+        fa = mk_fh(op[2] if k in ("fit", "ups") else op[1], shift) if k in ("fit", "pred", "ups") else None
+        before = (_snap(ya), _snap(fa))
+        held.append((ya, before[0]))
         try:
-            k = op[0]
             if k == "fit":
-                res = f.fit(mk_series(op[1], shift, rng_idx), fh=mk_fh(op[2], shift))
+                res = f.fit(ya, fh=fa)
             elif k == "pred":
-                res = f.predict(mk_fh(op[1], shift))
+                res = f.predict(fa)
             elif k == "upd":
-                res = f.update(mk_series(op[1], shift, rng_idx), update_params=op[2])
+                res = f.update(ya, update_params=op[2])
             elif k == "up":
-                res = f.update_predict(mk_series(op[1], shift, rng_idx), cv=mk_cv(op[2]), update_params=op[3])
+                res = f.update_predict(ya, cv=mk_cv(op[2]), update_params=op[3])
             elif k == "ups":
-                res = f.update_predict_single(mk_series(op[1], shift, rng_idx), fh=mk_fh(op[2], shift), update_params=op[3])
+                res = f.update_predict_single(ya, fh=fa, update_params=op[3])
             else:
                 raise RuntimeError(k)
             out = "ok" if res is f else show_out(res, shift, opaque)
         except Exception as e:
             out = canon_err(e)
+        # the caller's own objects -- this call's and every earlier call's -- are not the forecaster's to change
+        if (_snap(ya), _snap(fa)) != before or any(_snap(a) != b for a, b in held):
+            out = "E:argmod"
         toks.append(out + show_state(f, shift, opaque))
     y = getattr(f, "_y", None)
     if opaque:
